@@ -103,7 +103,7 @@ impl fmt::Write for Sink {
     }
 }
 #[kani::proof]
-#[kani::unwind(100)]
+#[kani::unwind(260)]
 fn isaac_core_debug_is_constant() {
     use core::fmt::Write;
     let a = any_core();
